@@ -49,7 +49,7 @@ func (c *Ctx) cryptoChainOf(fn *ssa.Function, op string) *cryptoChain {
 	cc.opCall = calls[0]
 	prim := cc.opCall.Call.Value
 	// prim <- extract#0 daead.New(kh) ; kh <- extract#0 keysetHandleFromRawKey(keyParam)
-	nc, ok := peel(prim).(*ssa.Extract)
+	nc, ok := defAt(prim, cc.opCall.Block()).(*ssa.Extract)
 	if !ok {
 		cc.why = "primitive is not the result of a constructor call"
 		return cc
@@ -59,7 +59,7 @@ func (c *Ctx) cryptoChainOf(fn *ssa.Function, op string) *cryptoChain {
 		cc.why = "primitive does not come from daead.New"
 		return cc
 	}
-	khx, ok := newCall.Call.Args[0].(*ssa.Extract)
+	khx, ok := defAt(newCall.Call.Args[0], newCall.Block()).(*ssa.Extract)
 	if !ok {
 		cc.why = "keyset handle is not a call result"
 		return cc
@@ -71,10 +71,10 @@ func (c *Ctx) cryptoChainOf(fn *ssa.Function, op string) *cryptoChain {
 	}
 	cc.adConst = fnFullName(c.staticPkgCallee(&khCall.Call))
 	for i, p := range fn.Params {
-		if khCall.Call.Args[0] == ssa.Value(p) {
+		if defAt(khCall.Call.Args[0], khCall.Block()) == ssa.Value(p) {
 			cc.keyParam = i
 		}
-		if cc.opCall.Call.Args[0] == ssa.Value(p) {
+		if defAt(cc.opCall.Call.Args[0], cc.opCall.Block()) == ssa.Value(p) {
 			cc.dataParam = i
 		}
 	}
@@ -246,7 +246,7 @@ func ruleC09(c *Ctx, r *Report) {
 		// data arg <- extract#0 of E'.DecodeString(arg) with arg = args[i] directly
 		okDec := false
 		detail := "Decrypt input is not the base64 decoding of the command argument"
-		if ex, ok := ds.Call.Args[0].(*ssa.Extract); ok {
+		if ex, ok := resolveAt(ds.Call.Args[0], ds.Block()).(*ssa.Extract); ok {
 			if dcall, ok := ex.Tuple.(*ssa.Call); ok && calleeKey(&dcall.Call) == "(*encoding/base64.Encoding).DecodeString" {
 				e2 := encodingGlobal(dcall.Call.Args[0])
 				argOK := false
@@ -269,7 +269,7 @@ func ruleC09(c *Ctx, r *Report) {
 		// ... and the decoding is strict: encoding/base64 otherwise ignores the unused trailing
 		// bits of the last quantum and skips CR / LF, so several texts decode to one ciphertext
 		// and an altered text is accepted instead of refused
-		if ex, ok := ds.Call.Args[0].(*ssa.Extract); ok {
+		if ex, ok := resolveAt(ds.Call.Args[0], ds.Block()).(*ssa.Extract); ok {
 			if dcall, ok := ex.Tuple.(*ssa.Call); ok && calleeKey(&dcall.Call) == "(*encoding/base64.Encoding).DecodeString" {
 				strict := false
 				var visit func(v ssa.Value, depth int)
@@ -290,6 +290,17 @@ func ruleC09(c *Ctx, r *Report) {
 						}
 					case *ssa.UnOp:
 						visit(x.X, depth+1)
+					case *ssa.Global:
+						// a package-level encoding object: what the package initialiser stores into it
+						if x.Pkg == c.SPkg {
+							if ini := c.SPkg.Func("init"); ini != nil {
+								allInstrs(ini, func(i ssa.Instruction) {
+									if st, ok := i.(*ssa.Store); ok && st.Addr == ssa.Value(x) {
+										visit(st.Val, depth+1)
+									}
+								})
+							}
+						}
 					}
 				}
 				visit(dcall.Call.Args[0], 0)
@@ -341,6 +352,22 @@ func ruleC09(c *Ctx, r *Report) {
 						}
 					case *ssa.MakeInterface:
 						follow(x)
+					case *ssa.Phi:
+						// joined with the zero value of the error paths (result temporary of an inlined helper)
+						okJoin := true
+						for _, e := range x.Edges {
+							if e == v {
+								continue
+							}
+							if cs, isC := constString(e); !isC || cs != "" {
+								okJoin = false
+							}
+						}
+						if okJoin {
+							follow(x)
+						} else {
+							outBad = append(outBad, "merged with another value at "+c.InstrPos(rr))
+						}
 					case *ssa.Store:
 						if ia, ok := x.Addr.(*ssa.IndexAddr); ok {
 							if al, ok := ia.X.(*ssa.Alloc); ok {
@@ -439,6 +466,20 @@ func ruleC09(c *Ctx, r *Report) {
 		for _, ec := range errCalls {
 			ev := extractOf(ec, 1)
 			_, isNil := factNil(facts, ev)
+			if !isNil && ev != nil {
+				// or: no path from the err != nil edge of its test reaches this print
+				// (edges decided by result temporaries are not followed)
+				// or: with the err == nil edges of its tests removed the print cannot be reached at
+				// all (edges decided by result temporaries of inlined helpers are not followed)
+				tests := errTestsOf(ev)
+				nilEdge := map[[2]*ssa.BasicBlock]bool{}
+				for _, t := range tests {
+					if t.NilSucc != nil && t.NilSucc != t.NonNilSucc {
+						nilEdge[[2]*ssa.BasicBlock{t.If.Block(), t.NilSucc}] = true
+					}
+				}
+				isNil = len(nilEdge) > 0 && !reachesBlockAvoiding(dc.Blocks[0], nil, call.Block(), func(a, b *ssa.BasicBlock) bool { return nilEdge[[2]*ssa.BasicBlock{a, b}] })
+			}
 			if !isNil {
 				all = false
 			}
